@@ -43,6 +43,12 @@ PATHS = ['/simfs/m.json', '/simfs/m.gz', '/simfs/m.gzip', '/simfs/m.GZ',
 SAFETY_STEPS = 3_000_000
 
 
+def link_of(path):
+    """Second name of a file: same directory entry kind, same extension."""
+    d, _, name = path.rpartition('/')
+    return f'{d}/lnk-{name}'
+
+
 def is_gz_path(path):
     name = path.rsplit('/', 1)[-1]
     ext = name[name.rfind('.'):].lower() if '.' in name[1:] else ''
@@ -128,6 +134,9 @@ def gen_case(seed, tier='quick'):
     def persist():
         op = {'op': 'persist', 'path': rng.choice(paths),
               'bufsize': rng.choice([16, 64, 512, 8192])}
+        if rng.random() < 0.1:
+            # called from an exception handler of the application
+            op['in_except'] = True
         if faulty and rng.random() < 0.45:
             k = rng.choice(['eio', 'enospc', 'torn', 'short', 'short',
                             'interrupt', 'open', 'close'])
@@ -158,6 +167,10 @@ def gen_case(seed, tier='quick'):
             # restore into one long-lived Model object that is used for
             # every such restore of this history
             op['reuse'] = True
+        if rng.random() < 0.12:
+            # read through a second name of the same file (hard link made
+            # right after the file first existed)
+            op['via_link'] = True
         if use_child:
             op['child'] = True
         if faulty and rng.random() < 0.3:
@@ -405,9 +418,18 @@ def _run(case, fs, amb):
                         short_seed=short, open_fault=of, close_fault=cf)
             st = Stepper(interrupt_at=at)
             with st:
-                out = outcome_of(model.persist_to_json_file, path)
+                if op.get('in_except'):
+                    try:
+                        raise RuntimeError('application error being handled')
+                    except RuntimeError:
+                        out = outcome_of(model.persist_to_json_file, path)
+                    bump('probe:persist_from_exception_handler')
+                else:
+                    out = outcome_of(model.persist_to_json_file, path)
             if st.fired == 'interrupt':
                 fs.fired('interrupt_in_persist')
+            if path in fs.files and link_of(path) not in fs.files:
+                fs.link(path, link_of(path))
             if out != ['crash'] and dump_model(model) != before:
                 # not promised by the statement either way: counted only
                 bump('probe:persist_changed_original')
@@ -467,10 +489,14 @@ def _run(case, fs, amb):
                 bump('probe:short_writes_absorbed')
         elif kind == 'restore':
             path = op['path']
+            snap_key = path
+            if op.get('via_link') and link_of(path) in fs.files:
+                path = link_of(path)
+                bump('probe:restore_through_second_link')
             if path not in fs.files:
                 log.append([seq, 'restore', path, 'no such file'])
                 continue
-            snap = snaps.get(path)
+            snap = snaps.get(snap_key)
             fault = op.get('fault')
             rf, short, rof = None, None, None
             if fault is not None:
